@@ -38,8 +38,71 @@ def stepsAll (P : Pb) (nf nc : Nat) (dt : Rat) (V : Nat → Rat) (bvs : List (Na
 def interleave (nc : Nat) (comps : List (List Rat)) : List Rat :=
   (List.range nc).flatMap (fun i => comps.map (fun cl => cl.getD i 0))
 
+def natFn (l : List Nat) : Nat → Nat :=
+  let a := l.toArray
+  fun i => a.getD i 0
+
+/-- one interface of a mixed-dimensional case: the coupling matrices of `UpwindCoupling`, in global indices -/
+def runIntf (T : Topo) (j : Json) : R Json := do
+  let pf ← fNats j "pf"
+  let sc ← fNats j "sc"
+  let lam ← fRats j "lam"
+  let dh ← fInt j "dim_h"
+  let dl ← fInt j "dim_l"
+  let f0 ← fNat j "face_lo"
+  let f1 ← fNat j "face_hi"
+  let nm := lam.length
+  if pf.length != nm || sc.length != nm then throw "mortar length mismatch" else
+  if !codimOk dh dl then pure (err "ValueError") else
+  let C : Cp := ⟨T, natFn pf, natFn sc, arrFn lam⟩
+  let ms := List.range nm
+  pure (obj [
+    ("upwind_primary", ofRats (ms.map (upPrimDiag C))),
+    ("upwind_secondary", ofRats (ms.map (upSecDiag C))),
+    ("flux", ofRats (ms.map (cplFluxDiag C))),
+    ("trace", ofTrips ((T.filter (fun i => f0 ≤ i.face && i.face < f1)).map (fun i => (i.face, i.cell, absR i.sgn)))),
+    ("cc02", ofTrips (cc02Trip C nm)),
+    ("cc12", ofTrips (ms.map (fun m => (C.sc m, m, cc12 C (C.sc m) m)))),
+    ("cc20", ofTrips (cc20Trip C nm)),
+    ("cc21", ofTrips (ms.map (fun m => (m, C.sc m, cc21 C m (C.sc m)))))])
+
+def mdSteps (M : Md) (nc : Nat) (dt : Rat) (V bv : Nat → Rat) : Nat → List Rat → List (List Rat)
+  | 0, _ => []
+  | n + 1, cl =>
+    let c := arrFn cl
+    let nxt := (List.range nc).map (mdStep M dt V bv c)
+    nxt :: mdSteps M nc dt V bv n nxt
+
+def runMd (j : Json) : R Json := do
+  let nf ← fNat j "nf"
+  let nc ← fNat j "nc"
+  let incs ← fRatss j "inc"
+  let T ← incs.mapM parseInc
+  let flux ← fRats j "flux"
+  let isDir ← field j "is_dir" >>= jList jBool
+  let isNeu ← field j "is_neu" >>= jList jBool
+  let bv ← fRats j "bv"
+  let cl ← fRats j "c"
+  let Vl ← fRats j "V"
+  let dt ← fRat j "dt"
+  let nsteps ← fNat j "nsteps"
+  let intfs ← field j "interfaces" >>= jList pure
+  let pf ← fNats j "pf"
+  let sc ← fNats j "sc"
+  let lam ← fRats j "lam"
+  if flux.length != nf || isDir.length != nf || isNeu.length != nf || Vl.length != nc || cl.length != nc then throw "length mismatch" else
+  let P : Pb := ⟨T, arrFn flux, boolFn isDir, boolFn isNeu⟩
+  if anyErr P nf then pure (err "ValueError") else
+  let M : Md := ⟨P, lam.length, natFn pf, natFn sc, arrFn lam⟩
+  let io ← intfs.mapM (runIntf T)
+  pure (obj [
+    ("upwind", ofTrips (upwindTrip P nf)), ("dir", ofTrips (dirTrip P nf)), ("neu", ofTrips (neuTrip P nf)),
+    ("interfaces", Json.arr io.toArray),
+    ("steps", ofList ofRats (mdSteps M nc dt (arrFn Vl) (arrFn bv) nsteps cl))])
+
 def run (j : Json) : R Json := do
   let op ← fStr j "op"
+  if op == "md" then runMd j else
   if op != "upwind" then throw s!"unknown op {op}" else
   let nf ← fNat j "nf"
   let nc ← fNat j "nc"
